@@ -75,7 +75,7 @@ def run(tier, seed, argv):
     rep.assumptions = ["matrix_eigenvectors is a recording stub returning a fresh matrix (contract: orthonormal, hence non-zero); the routine itself is C12's subject",
                        "real arithmetic; dtypes are tags with torch's promotion / mismatch rules for the operations used", "generic equality regime except one all-regime job per method"]
     rep.validate_standin(6 if tier == "quick" else 24)
-    rep.absorb("soap-reference", par.run_jobs(jobs, chunk=6))
+    rep.absorb("soap-reference", par.run_jobs(jobs, chunk=6), soft=lambda j: j.startswith("r"))
     return rep.finish("checks.c03")
 
 
